@@ -63,10 +63,11 @@ def validateOutputAttrs (lOut : Option (List String)) (l : Frame) (rOut : Option
   raiseIf ((lOut.getD []).any (fun a => !l.hasCol a)) .assertion
   raiseIf ((rOut.getD []).any (fun a => !r.hasCol a)) .assertion
 
-/-- `len(table[key].unique()) == len(table)` and no missing key -/
+/-- `len(table[key].unique()) == len(table)` and no missing key.  `unique()` identifies values under Python
+    equality (`Cell.pyEq`): `1`, `1.0` and `True` are one value, `'1'` is another -/
 def validateKeyAttr (a : String) (f : Frame) : Except PyErr Unit :=
   let c := f.col a
-  raiseIf (!((dedup c).length == c.length && !c.any Cell.isMissing)) .assertion
+  raiseIf (!((Profiler.dedupBy Cell.pyEq c).length == c.length && !c.any Cell.isMissing)) .assertion
 
 /-! ### projection helpers (utils/generic_helper.py) -/
 def removeRedundantAttrs (out : Option (List String)) (key : String) : Option (List String) :=
